@@ -129,7 +129,7 @@ package bbolt
 
 //@ func (*DB).getPageSizeFromFirstMeta
 //@   returns (sz, canRead, err)
-//@   props C11
+//@   props C11 C12 C13
 //@   ensures [valid] err == nil ==> metavalid(metaof(lastpage)) && sz == metaof(lastpage).pageSize && lastreadoff == 0 && canRead
 //@   ensures [invalid] err != nil ==> err == berrors.ErrInvalid && sz == 0
 //@   ensures [probe] nreads == old(nreads) + 1 && lastreadoff == 0
@@ -138,7 +138,7 @@ package bbolt
 
 //@ func (*DB).getPageSizeFromSecondMeta
 //@   returns (sz, canRead, err)
-//@   props C11
+//@   props C11 C12 C13
 //@   ensures [valid] err == nil ==> metavalid(metaof(lastpage)) && sz == metaof(lastpage).pageSize && canRead
 //@   ensures [probes] err == berrors.ErrInvalid && flen > 16778240 && nreads > old(nreads) ==> nreads == old(nreads) + 15
 //@   ensures [noreadnocan] nreads == old(nreads) ==> !canRead
@@ -148,7 +148,7 @@ package bbolt
 
 //@ func (*DB).getPageSize
 //@   returns (sz, err)
-//@   props C11
+//@   props C11 C12 C13
 //@   ensures [invalid] err != nil ==> err == berrors.ErrInvalid && sz == 0
 //@   ensures [frommeta] err == nil ==> sz == db.pageSize || (metavalid(metaof(lastpage)) && sz == metaof(lastpage).pageSize)
 //@   modifies nreads, lastreadoff, lastpage
@@ -282,7 +282,7 @@ package bbolt
 
 //@ func (*Tx).rollback
 //@   ensures [batchmu] old(tx.db) != nil ==> old(tx.db).batchMu.held == old(tx.db.batchMu.held)
-//@   props C08 C03 C07 C02 C06 C10 C13 C14 C01
+//@   props C08 C03 C07 C02 C06 C10 C13 C14 C01 C09 C04
 //@   requires tx.db != nil && tx.writable ==> tx.db.rwlock.held && tx.meta != nil && tx.db.freelist != nil
 //@   skip pre/freepages because the rescan opens a private read-only transaction: that metalock is free and the reader count non-negative at this point is lock state the commit-path contracts do not carry (the writer holds only rwlock here)
 //@   requires tx.db != nil && tx.writable && tx.db.data != nil ==> tx.db.meta0 != nil && tx.db.meta1 != nil && (metavalid(tx.db.meta0) || metavalid(tx.db.meta1))
@@ -296,7 +296,7 @@ package bbolt
 
 //@ func (*Tx).nonPhysicalRollback
 //@   ensures [batchmu] old(tx.db) != nil ==> old(tx.db).batchMu.held == old(tx.db.batchMu.held)
-//@   props C08 C03
+//@   props C08 C03 C04 C07 C09
 //@   requires tx.db != nil && tx.writable ==> tx.db.rwlock.held && tx.meta != nil && tx.db.freelist != nil
 //@   requires tx.db != nil && !tx.writable ==> tx.db.mmaplock.rcount >= 1 && tx.meta != nil && !tx.db.metalock.held
 //@   ensures [closed] tx.db == nil
@@ -305,7 +305,7 @@ package bbolt
 //@   ensures [disk] unsynced == old(unsynced) && nwrites == old(nwrites)
 
 //@ func (*Tx).Rollback
-//@   props C08 C03
+//@   props C08 C03 C04 C07 C09
 //@   requires !tx.managed
 //@   requires tx.db != nil && tx.writable ==> tx.db.rwlock.held && tx.meta != nil && tx.db.freelist != nil
 //@   requires tx.db != nil && !tx.writable ==> tx.db.mmaplock.rcount >= 1 && tx.meta != nil && !tx.db.metalock.held
@@ -747,7 +747,7 @@ package bbolt
 
 //@ func Open
 //@   returns (db, err)
-//@   props C17 C11 C13
+//@   props C17 C11 C13 C12
 //@   requires options != nil && (options.PageSize == 0 || options.PageSize >= 512) && options.PageSize <= 16777216 && options.InitialMmapSize >= 0 && common.DefaultPageSize >= 512 && common.DefaultPageSize <= 16777216
 //@   callback ensures true
 //@   ensures [flagro] old(options.ReadOnly) ==> lastopenflag == 0 || calls("DB.openFile", 0) == old(calls("DB.openFile", 0))     -- O_RDONLY, no O_CREATE
@@ -1038,6 +1038,8 @@ package bbolt
 //@   ensures [noerrwrite] callstotal("(*Bucket).Bucket") == old(callstotal("(*Bucket).Bucket")) ==> callstotal("(*node).del") == old(callstotal("(*node).del")) && callstotal("(*Bucket).free") == old(callstotal("(*Bucket).free"))     -- every documented error is returned before the nested bucket is even opened: nothing has been deleted or freed then
 //@   ensures [early] old(b.tx.db) == nil || !old(b.tx.writable) ==> callstotal("(*Bucket).Bucket") == old(callstotal("(*Bucket).Bucket"))
 //@   ensures [deleted] err == nil ==> callstotal("(*node).del") >= old(callstotal("(*node).del")) + 1 && callstotal("(*Bucket).free") >= old(callstotal("(*Bucket).free")) + 1
+//@   ensures [walked] err == nil ==> callstotal("(*Bucket).ForEachBucket") >= old(callstotal("(*Bucket).ForEachBucket")) + 1     -- whatever the representation of the bucket being deleted (its own pages, inline on disk, or created/filled in this transaction and still without a root page), its nested buckets are enumerated before its entry is removed: a bucket without a root page can hold page-backed buckets moved into it in the same transaction
+//@   ensures [walkedfirst] callstotal("(*Bucket).ForEachBucket") == old(callstotal("(*Bucket).ForEachBucket")) ==> callstotal("(*node).del") == old(callstotal("(*node).del")) && callstotal("(*Bucket).free") == old(callstotal("(*Bucket).free"))
 //@   skip pre/del because the sought leaf is a sorted node of a live write transaction (A-tree: Cursor.node materialises it so)
 //@   skip pre/DeleteBucket because the nested bucket opened through Bucket.Bucket belongs to the same live transaction (A-tree)
 
